@@ -13,9 +13,10 @@ def sh(cmd, cwd, timeout=2400):
 
 
 wt, pid, n = sys.argv[1], sys.argv[2], int(sys.argv[3])
+only = sys.argv[4] if len(sys.argv) > 4 else None
 for k in sorted(os.listdir(os.path.join(wt, "out"))):
     src = os.path.join(wt, "out", k)
-    if not os.path.exists(os.path.join(src, "patch.diff")) or not os.path.exists(os.path.join(src, "run.sh")):
+    if not os.path.exists(os.path.join(src, "patch.diff")) or not os.path.exists(os.path.join(src, "run.sh")) or (only and k != only):
         continue
     sh("git checkout -- . && git clean -fdq -e out -e TASK.md -e target", wt)
     r = {}
